@@ -75,6 +75,8 @@ class C16(Check):
                 for rf in ("tok", "repr", "dup"):
                     for s in ("-", "0", "1", "2", "4"):
                         qs.append("plain V%d %s %s" % (u, rf, s))
+                qs.append("plain V%d num -" % u)
+                qs.append("plain V%d num same" % u)
             # a render function that reads the vertices; what it reads changes between renders
             nv = unis[0]
             for _ in range(3):
@@ -133,9 +135,14 @@ class C16(Check):
         if len(u.vertices) == 0:
             return None if out == "ok none" else "empty universe rendered as %r" % out
         code = lambda x: 0 if x is None else real.vname(x) + 1  # noqa: E731
-        key = None if t[3] == "-" else (lambda x, k=int(t[3]): (code(x) * (k + 1)) % (3 if k == 1 else 7))
+        if t[2] == "num":
+            key = None if t[3] == "-" else (lambda x: code(x) * 5)
+        else:
+            key = None if t[3] == "-" else (lambda x, k=int(t[3]): (code(x) * (k + 1)) % (3 if k == 1 else 7))
         pre_ = "r" if t[2] == "repr" else "v"
-        if t[2] == "attr":
+        if t[2] == "num":
+            r = lambda x: str(code(x) * 5)  # noqa: E731
+        elif t[2] == "attr":
             r = lambda x: "none" if x is None else ("a%d" % real.valclass(x.a0) if hasattr(x, "a0") else "a-")  # noqa: E731
         elif t[2] == "dup":
             r = lambda x: "none" if x is None else "w%d" % (real.vname(x) % 2)  # noqa: E731
